@@ -70,8 +70,9 @@ CHECKS = {
          "finite pool), operator leaves are matched against their declared signature, annotations against Sub; "
          "C04_full / C04_sub_full prove the statement unconditionally (every application node, every leaf an instance "
          "of its signature, every annotation, the re-fixed tree, and every declared subtype constraint of a leaf) for "
-         "operators that are constraint-free or carry subtype constraints x <= A / x < A; elimination-constrained "
-         "operators per instance (verified checker)",
+         "operators that are constraint-free or carry subtype constraints x <= A / x < A, and C04_elim / C04_elim_full "
+         "for operators that also carry elimination constraints over base-type alternatives (a resolved constrained "
+         "variable lies under a declared alternative); compound or variable alternatives per instance (verified checker)",
          "4 C04", "Coq-verified per-node checker + engine model correspondence through the real parser"),
  "C15": ("de Bruijn lambda-terms with composite operators: primitive() modelled as unfold + applicative-order "
          "normalisation; result has no composite operator and no redex, equals every normal form reachable by any "
